@@ -30,6 +30,7 @@ import LinVerif.Util.Proto
 import LinVerif.Model.MemDB
 import LinVerif.Model.QueryExpr
 import LinVerif.Model.BlockLayout
+import LinVerif.Model.C11Iter
 import LinVerif.Generated.C11
 
 namespace LinVerif.Driver.C11
@@ -383,6 +384,16 @@ def step (st : St) (ws : List String) : St × String :=
     match runExpr rest with
     | some out => (st, out)
     | none => (st, "bad-op")
+  | ["iter", q, "|", storage] =>
+    -- DataLoadContext.Grouping on the query container, then IterateLowSeriesIDs over the storage
+    -- container ("-" = empty): the callback's (query index, storage position) pairs in call order
+    match natCsv? q, natCsv? (if storage = "-" then "" else storage) with
+    | some q, some stg =>
+      if q.isEmpty ∨ !ascending q ∨ !ascending stg ∨ q.any (· ≥ 65536) ∨ stg.any (· ≥ 65536) then (st, "bad-op")
+      else
+        let ps := LinVerif.Model.C11Iter.iterate (LinVerif.Model.C11Iter.grouping q) stg
+        (st, if ps.isEmpty then "pairs" else "pairs " ++ LinVerif.Model.C11Iter.showPairs ps)
+    | _, _ => (st, "bad-op")
   | ["fcall", fn, sec, v] =>
     match fn.toNat?, sec.toNat?, v.toInt? with
     | some fn, some sec, some v =>
